@@ -184,7 +184,10 @@ func c15GenDocs(r *Rng, ptype string, large bool) []c15Doc {
 	return docs
 }
 
-var c15ImgShapes = []string{"annotated", "annotated", "annotated", "annotated", "annotated", "multi", "multi", "multi", "plain", "plain", "plain", "plain2", "plain2", "plain2", "twoann", "nofile", "baselast", "otherann", "many", "toomany"}
+var c15ImgShapes = []string{"annotated", "annotated", "annotated", "annotated", "annotated", "multi", "multi", "multi", "plain", "plain", "plain", "plain2", "plain2", "plain2", "twoann", "nofile", "baselast", "otherann", "many", "toomany", "alike", "alike", "alike2", "alike2", "alikeonly"}
+
+// c15ListErrClasses: error classes of a List of ImageConfigs
+var c15ListErrClasses = []string{"err", "nokind", "nokind", "noresource", "timeout", "unavailable", "forbidden"}
 
 func c15GenRev(r *Rng, idx int, ptype string) c15Rev {
 	large := r.Chance(1, 10)
@@ -204,6 +207,13 @@ func c15GenRev(r *Rng, idx int, ptype string) c15Rev {
 	rev.Source = fmt.Sprintf("%s/acme/%s:v1.%d.0", c15Registry, rev.Name[:4], r.Intn(10))
 	if r.Chance(1, 8) {
 		c15AlignStream(r, &rev)
+	}
+	rev.Resolve = r.Chance(2, 5)
+	// more stream decoration (see c15Stream)
+	for _, b := range [][2]int{{8, 5}, {16, 5}, {32, 6}, {64, 30}} {
+		if r.Chance(1, b[1]) {
+			rev.Shape |= b[0]
+		}
 	}
 	return rev
 }
@@ -421,6 +431,16 @@ func c15GenFaults(r *Rng, rev *c15Rev) c15Faults {
 	if r.Chance(1, 7) {
 		f.Env = Pick(r, []string{"touch", "wipe", "wipe", "recreate", "recreate", "flip"})
 	}
+	// collaborators in front of Establish
+	if r.Chance(1, 16) {
+		f.PullCfg = Pick(r, c15ListErrClasses)
+	}
+	if r.Chance(1, 8) {
+		f.Rel = Pick(r, c15ErrClasses) // (felt by inactive revisions only)
+	}
+	if rev.Resolve && r.Chance(1, 7) {
+		f.Dep = Pick(r, c15ErrClasses)
+	}
 	return f
 }
 
@@ -450,8 +470,8 @@ func c15Gen(r *Rng) c15Scn {
 			s.Cfgs = c15GenCfgs(r, scn.Revs)
 		case r.Chance(sigP, 10):
 			s.K = "sig"
-			if r.Chance(1, 8) {
-				s.SigCfg = "err"
+			if r.Chance(1, 6) {
+				s.SigCfg = Pick(r, c15ListErrClasses)
 			}
 			if r.Chance(1, 12) {
 				s.F.GetE = Pick(r, []string{"miss", "err"})
@@ -499,7 +519,7 @@ func c15Gen(r *Rng) c15Scn {
 			g := Pick(r, k.allowed[rv.PType])
 			rv.Docs = append(rv.Docs, c15Doc{T: "obj", GVK: g, Name: c15ObjName(g, i)})
 		}
-		rv.Img, rv.Pre, rv.Never = Pick(r, []string{"annotated", "plain", "multi", "baselast"}), Pick(r, []string{"cold", "warm"}), false
+		rv.Img, rv.Pre, rv.Never = Pick(r, []string{"annotated", "plain", "multi", "baselast", "alike", "alike2"}), Pick(r, []string{"cold", "warm"}), false
 		scn.Cfgs = []c15Cfg{}
 		if r.Bool() {
 			scn.Cfgs = []c15Cfg{{Name: "cfg-a", Prefixes: []string{c15Registry + "/acme/"}, Verif: "cosign", OK: true}}
@@ -534,6 +554,9 @@ func c15Gen(r *Rng) c15Scn {
 	}
 	for i := 0; i+1 < len(scn.Steps); i++ {
 		a, b := &scn.Steps[i], &scn.Steps[i+1]
+		if a.F.PullCfg != "" || b.F.PullCfg != "" {
+			continue // the ImageConfig store is the controller's: its failure is not tied to one revision
+		}
 		if a.K == "rec" && b.K == "rec" && a.R != b.R && r.Bool() {
 			if c15CachePath(scn.Revs[a.R].Name) == c15CachePath(scn.Revs[b.R].Name) && !twinsCalm {
 				continue
@@ -618,7 +641,7 @@ func c15Cls(scn *c15Scn, obs *c15Obs) string {
 		}
 		if s.K == "sig" {
 			fk["sig"] = true
-			if s.SigCfg == "err" {
+			if s.SigCfg != "" {
 				fk["sig:listerr"] = true
 			}
 			if s.F.GetE != "" {
@@ -919,6 +942,19 @@ func c15Emit(c *Ctx, scn *c15Scn, corpus bool) {
 		c.Emit(scn, obs, mons, "test:cache-ids")
 		return
 	}
+	if scn.Kind == "tee" {
+		var obs c15TeeObs
+		var mons []Mon
+		cls := "test:tee"
+		if p := Guard(func() { obs, mons, cls = c15RunTee(scn) }); p != "" {
+			mons = append(mons, Mon{Sig: "C15:panic", Why: p})
+		}
+		if corpus {
+			cls = "corpus/" + cls
+		}
+		c.Emit(scn, obs, mons, cls)
+		return
+	}
 	if scn.Kind == "build" {
 		var obs c15BuildObs
 		var mons []Mon
@@ -999,7 +1035,7 @@ func init() {
 		debug.SetGCPercent(400)
 		for _, raw := range c.Corpus {
 			var s c15Scn
-			if err := jsonUnmarshalStrict(raw, &s); err == nil && len(s.Revs) > 0 {
+			if err := jsonUnmarshalStrict(raw, &s); err == nil && (len(s.Revs) > 0 || s.Kind == "tee") {
 				c15Emit(c, &s, true)
 			}
 		}
@@ -1015,6 +1051,11 @@ func init() {
 			}
 			if i%100 == 50 {
 				s := c15GenIDs(c.Rng)
+				c15Emit(c, &s, false)
+				continue
+			}
+			if i%20 == 13 {
+				s := c15GenTee(c.Rng)
 				c15Emit(c, &s, false)
 				continue
 			}
